@@ -92,6 +92,33 @@ def mk(b, i, lo, hi):
     return SymInt(b, i, lo, hi)
 
 
+def bv_divmod(xb, c):
+    """(x udiv c, x urem c) for a non-negative W-bit term and a positive constant. For constants that are not a
+    power of two the quotient and remainder are fresh constants defined by x = q*c + r, r < c: multiplication by
+    a constant bit-blasts far better than division. The definition is total, so adding it to the path condition
+    does not restrict x."""
+    W = S.W
+    if c & (c - 1) == 0:
+        k = c.bit_length() - 1
+        if k == 0:
+            return xb, bvval(0)
+        return z3.LShR(xb, bvval(k)), z3.ZeroExt(W - k, z3.Extract(k - 1, 0, xb))
+    xs = z3.simplify(xb)
+    if z3.is_bv_value(xs):
+        v = xs.as_long()
+        return bvval(v // c), bvval(v % c)
+    e = eng()
+    cache = e.divcache
+    key = (xs.get_id(), c)
+    if key in cache:
+        return cache[key][1], cache[key][2]
+    n = len(cache)
+    q, r = z3.BitVec(f"_q{n}", W), z3.BitVec(f"_r{n}", W)
+    e.pc_bv.append(z3.And(xb == q * bvval(c) + r, z3.ULT(r, bvval(c)), z3.ULE(q, bvval((S.LIM - 1) // c))))
+    cache[key] = (xs, q, r)
+    return q, r
+
+
 def is_sym(x) -> bool:
     return isinstance(x, (SymInt, SymBool))
 
@@ -313,8 +340,10 @@ class SymInt:
                 k = o.bit_length() - 1
                 return mk(self.bv >> k, self.iv / o, self.lo >> k, self.hi >> k)
             if self.lo < 0:
-                raise Unsupported("floor division of a possibly negative value by a non power of two")
-            return mk(z3.UDiv(self.bv, bvval(o)), self.iv / o, self.lo // o, self.hi // o)
+                ob = bvval(o)
+                q = z3.If(self.bv >= bvval(0), z3.UDiv(self.bv, ob), -z3.UDiv(-self.bv + bvval(o - 1), ob))
+                return mk(q, self.iv / o, self.lo // o, self.hi // o)
+            return mk(bv_divmod(self.bv, o)[0], self.iv / o, self.lo // o, self.hi // o)
         if isinstance(o, SymInt):
             raise Unsupported("division by a symbolic value")
         if isinstance(o, int) and o == 0:
@@ -340,10 +369,11 @@ class SymInt:
                 hi = min(o - 1, self.hi) if self.lo >= 0 else o - 1
                 return mk(z3.ZeroExt(S.W - k, z3.Extract(k - 1, 0, self.bv)), self.iv % o, 0, hi)
             if self.lo < 0:
-                raise Unsupported("modulo of a possibly negative value by a non power of two")
+                q = self // o
+                return mk(self.bv - parts(q)[0] * bvval(o), self.iv % o, 0, o - 1)
             if self.hi < o:
                 return self
-            return mk(z3.URem(self.bv, bvval(o)), self.iv % o, 0, min(o - 1, self.hi))
+            return mk(bv_divmod(self.bv, o)[1], self.iv % o, 0, min(o - 1, self.hi))
         if isinstance(o, SymInt):
             raise Unsupported("modulo by a symbolic value")
         if isinstance(o, int) and o == 0:
@@ -587,6 +617,36 @@ def sym_max(*a, **kw):
     return r
 
 
+def fork_min(*a, **kw):
+    """min() that decides the comparison (one branch per outcome) instead of building an If term: keeps the
+    terms of the following loop iterations linear."""
+    if kw:
+        return min(*a, **kw)
+    if len(a) == 1:
+        a = tuple(a[0])
+    if not any(isinstance(x, SymInt) for x in a):
+        return min(a)
+    r = a[0]
+    for x in a[1:]:
+        if x < r:
+            r = x
+    return r
+
+
+def fork_max(*a, **kw):
+    if kw:
+        return max(*a, **kw)
+    if len(a) == 1:
+        a = tuple(a[0])
+    if not any(isinstance(x, SymInt) for x in a):
+        return max(a)
+    r = a[0]
+    for x in a[1:]:
+        if x > r:
+            r = x
+    return r
+
+
 class _SymRange:
     """range() with symbolic bounds: forks lazily, one decision per iteration."""
 
@@ -638,6 +698,10 @@ class Engine:
         self.vars = {}
         self.path_hooks = []  # callables run at the start of every path (reset per-path state)
         self.trace = bool(os.environ.get("SYMX_TRACE"))
+        self.decide_first = os.environ.get("SYMX_DECIDE", "int")
+        self.bv_quick_ms = 20000
+        self.pref = None
+        self.int_decide_ms = int(os.environ.get("SYMX_INT_MS", "10000"))
 
     # ---- variables ---------------------------------------------------------------------------
     def var(self, name, lo, hi):
@@ -655,6 +719,7 @@ class Engine:
         return SymBool(b, i)
 
     def fresh_int(self, lo, hi):
+        self.int_exact = False  # the steering encoding over-approximates from here on
         self._fresh += 1
         v = z3.Int(f"_approx{self._fresh}")
         self._add_int(z3.And(v >= lo, v <= hi))
@@ -703,6 +768,18 @@ class Engine:
             self.assume(cond != 0)
         elif not cond:
             raise PathAbort("assumption is false")
+
+    def assume_range(self, x, lo, hi):
+        """Assume lo <= x <= hi and remember the narrower interval for later reads of the same term."""
+        if not isinstance(x, SymInt):
+            if not (lo <= x <= hi):
+                raise PathAbort("assumption is false")
+            return x
+        self.assume(x >= lo)
+        self.assume(x <= hi)
+        nlo, nhi = max(lo, x.lo), min(hi, x.hi)
+        self.bounds[x.bv.get_id()] = (x.bv, nlo, nhi)
+        return mk(x.bv, x.iv, nlo, nhi)
 
     def decide(self, sb):
         self.stats["decisions"] += 1
@@ -773,7 +850,69 @@ class Engine:
         return s.model() if r == z3.sat else None
 
     def feasible(self):
-        return self.bv_solve() is not None
+        return self.decide_case(True) is not None
+
+    def decide_case(self, case, extra=(), first=None):
+        """Is (path condition and case and extra) satisfiable? Returns a BV model, or None when unsatisfiable.
+        case/extra: SymBool or bool. Decided on the exact bit-vector encoding; when that times out and the integer
+        encoding of this path is exact (no over-approximated operation), the integer encoding decides instead
+        (linear arithmetic copes with division by constants that are not powers of two, bit-blasting does not)."""
+        conds = [case] + list(extra)
+        if any(c is False for c in conds):
+            return None
+        bvc = [c.bv for c in conds if isinstance(c, SymBool)]
+        ivc = [c.iv for c in conds if isinstance(c, SymBool)]
+        f = first or self.pref or self.decide_first
+        o = "bv" if f == "int" else "int"
+        if not self.int_exact:
+            attempts = [("bv", self.bv_timeout_ms)]
+        else:
+            # escalating rounds, alternating encodings: neither is uniformly faster
+            attempts = [(f, 1500), (o, 1500), (f, 10000), (o, 10000), (f, 60000), (o, 60000), ("bv", self.bv_timeout_ms)]
+        last = None
+        for which, tmo in attempts:
+            if which == "bv":
+                try:
+                    r_ = self.bv_solve(*bvc, timeout_ms=tmo)
+                    self.pref = "bv"
+                    return r_
+                except Inconclusive as ex:
+                    last = ex
+                    continue
+            t = time.time()
+            self.isolver.push()
+            self.isolver.set("timeout", tmo)
+            try:
+                self.isolver.add(*ivc)
+                r = self.isolver.check()
+                m = self.isolver.model() if r == z3.sat else None
+            finally:
+                self.isolver.set("timeout", self.int_timeout_ms)
+                self.isolver.pop()
+            self.stats["int_decides"] = self.stats.get("int_decides", 0) + 1
+            self.stats["int_s"] += time.time() - t
+            if r == z3.unsat:
+                self.pref = "int"
+                return None
+            if r == z3.sat:
+                self.pref = "int"
+                pins = []
+                for name, (b_, i_) in self.vars.items():
+                    if z3.is_bool(b_):
+                        continue
+                    v = m.eval(i_, model_completion=True)
+                    if z3.is_int_value(v):
+                        pins.append(b_ == bvval(v.as_long()))
+                try:
+                    bm = self.bv_solve(*bvc, *pins)
+                except Inconclusive as ex:
+                    last = ex
+                    continue
+                if bm is None:
+                    raise Inconclusive("integer and bit-vector encodings disagree on a satisfiable case")
+                return bm
+            last = Inconclusive("integer deciding query returned unknown")
+        raise last or Inconclusive("no encoding could decide the case")
 
     # ---- exploration ----------------------------------------------------------------------------
     def explore(self, fn, on_path=None, forced_prefix=None):
@@ -793,6 +932,9 @@ class Engine:
             self.cur_model = None
             self.pc_bv = []
             self._fresh = 0
+            self.divcache = {}
+            self.bounds = {}
+            self.int_exact = True
             for h in self.path_hooks:
                 h()
             try:
